@@ -159,13 +159,21 @@ func otherAtoms(thorough bool) []atom {
 	str("max_node_age", func(o *controller.NodeGroupOptions) *string { return &o.MaxNodeAge },
 		map[string]string{"": "age-empty", "0": "age-zero", "0s": "age-zero", "12h": "age-ok", "-1h": "age-negative", "x": "age-unparsable", "24": "age-unparsable"})
 
-	for v, kind := range map[string]string{"": "effect-valid", "NoSchedule": "effect-valid", "PreferNoSchedule": "effect-valid",
-		"noschedule": "effect-unknown", "Bogus": "effect-unknown", " ": "effect-unknown", "NoExecute ": "effect-unknown"} {
+	effects := map[string]string{"": "effect-valid", "NoSchedule": "effect-valid", "PreferNoSchedule": "effect-valid",
+		"noschedule": "effect-case-variant", "Bogus": "effect-unknown", " ": "effect-unknown", "NoExecute ": "effect-near-miss"}
+	for v, kind := range enumVariants([]string{"NoSchedule", "NoExecute", "PreferNoSchedule"}, "effect", thorough) {
+		effects[v] = kind
+	}
+	for v, kind := range effects {
 		v, kind := v, kind
 		out = append(out, atom{[]string{"taint_effect"}, kind, fmt.Sprintf("taint_effect=%q", v), func(o *controller.NodeGroupOptions) { o.TaintEffect = v1.TaintEffect(v) }})
 	}
-	for v, kind := range map[string]string{"": "lifecycle-valid", "spot": "lifecycle-valid", "Spot": "lifecycle-unknown", "ondemand": "lifecycle-unknown",
-		"reserved": "lifecycle-unknown", "on-demand ": "lifecycle-unknown"} {
+	lifecycles := map[string]string{"": "lifecycle-valid", "spot": "lifecycle-valid", "Spot": "lifecycle-case-variant", "ondemand": "lifecycle-near-miss",
+		"reserved": "lifecycle-unknown", "on-demand ": "lifecycle-near-miss"}
+	for v, kind := range enumVariants([]string{"on-demand", "spot"}, "lifecycle", thorough) {
+		lifecycles[v] = kind
+	}
+	for v, kind := range lifecycles {
 		v, kind := v, kind
 		out = append(out, atom{[]string{"aws.lifecycle"}, kind, fmt.Sprintf("aws.lifecycle=%q", v), func(o *controller.NodeGroupOptions) { o.AWS.Lifecycle = v }})
 	}
@@ -190,6 +198,52 @@ func otherAtoms(thorough bool) []atom {
 	)
 	// deterministic order (maps above are iterated): sort by label
 	sort.SliceStable(out, func(i, j int) bool { return out[i].label < out[j].label })
+	return out
+}
+
+// titleCase capitalises the first letter of every '-'-separated part ("on-demand" -> "On-Demand", "spot" -> "Spot")
+func titleCase(s string) string {
+	parts := strings.Split(strings.ToLower(s), "-")
+	for i, p := range parts {
+		if p != "" {
+			parts[i] = strings.ToUpper(p[:1]) + p[1:]
+		}
+	}
+	return strings.Join(parts, "-")
+}
+
+// enumVariants: for every documented value of an enumerated string option, the spellings a validator that compares
+// loosely (case-insensitively, after trimming, by prefix) would let through although the rest of the program compares
+// exactly: case variants (upper, lower, capitalised) and near-misses (surrounding blanks; thorough: '_' for '-', a
+// dropped last character, a doubled one).  Values equal to a documented one are left out.  kind = "<what>-case-variant" /
+// "<what>-near-miss" (the buckets appear in the evidence's input distribution).
+func enumVariants(valid []string, what string, thorough bool) map[string]string {
+	isValid := map[string]bool{}
+	for _, v := range valid {
+		isValid[v] = true
+	}
+	out := map[string]string{}
+	add := func(v, kind string) {
+		if !isValid[v] && v != "" {
+			if _, seen := out[v]; !seen {
+				out[v] = what + "-" + kind
+			}
+		}
+	}
+	for _, v := range valid {
+		add(strings.ToUpper(v), "case-variant")
+		add(strings.ToLower(v), "case-variant")
+		add(titleCase(v), "case-variant")
+		add(v+" ", "near-miss")
+		if thorough {
+			add(" "+v, "near-miss")
+			add(strings.ToLower(v[:1])+v[1:], "case-variant")
+			add(strings.ReplaceAll(v, "-", "_"), "near-miss")
+			add(strings.ReplaceAll(v, "-", ""), "near-miss")
+			add(v[:len(v)-1], "near-miss")
+			add(v+v[len(v)-1:], "near-miss")
+		}
+	}
 	return out
 }
 
@@ -224,8 +278,8 @@ func randomOpts(rng *rand.Rand) cfgSpec {
 	ints := []int{math.MinInt64, -1000, -3, -2, -1, 0, 1, 2, 3, 4, 5, 6, 9, 10, 11, 29, 30, 31, 39, 40, 41, 69, 70, 71, 100, 1 << 40, hugeInt}
 	strs := []string{"", "", "x", "shared", "customer", " ", "n\u00e4m\u00e9", `a"b\c`, "default"}
 	durs := []string{"", "0", "0s", "1ns", "59s", "1m", "2m", "10m", "600s", "10m1ns", "1h30m", "-1m", "5", "abc", "9999999h", "2562047h", "1.5m"}
-	effs := []string{"", "NoSchedule", "NoExecute", "PreferNoSchedule", "noschedule", "Bogus"}
-	lcs := []string{"", "on-demand", "spot", "Spot", "reserved"}
+	effs := []string{"", "NoSchedule", "NoExecute", "PreferNoSchedule", "noschedule", "Bogus", "NOSCHEDULE", "NoSchedule ", "noexecute", "Prefernoschedule"}
+	lcs := []string{"", "on-demand", "spot", "Spot", "reserved", "SPOT", "On-Demand", "ON-DEMAND", "spot ", " on-demand"}
 	pi := func() int { return ints[rng.Intn(len(ints))] }
 	ps := func(l []string) string { return l[rng.Intn(len(l))] }
 	o := controller.NodeGroupOptions{
@@ -329,7 +383,7 @@ func configEngine(prop, tier string, rng *rand.Rand, replay []json.RawMessage) (
 		Evals: []EvalDef{{"R", "mismatches_C16"}, {"V", "propfail_C16"}, {"T", "tags_C16"}, {"Trules", "rule_fail_counts_C16"}},
 		Rule: "valid base configuration (the documentation's example) with every single perturbation and every pair of perturbations of distinct options over " +
 			"{negative, 0, equal to / one either side of the neighbouring option, swapped neighbours, huge, empty or odd string, unparsable / negative / zero / overflowing durations, " +
-			"unknown effect, unknown lifecycle, max_node_age in {\"\", 0, 0s, 12h, -1h, x, 24}}, plus seeded random 3-5-field perturbations and fully random option tuples; " +
+			"unknown effect, unknown lifecycle, case variants (upper / lower / capitalised: Spot, SPOT, On-Demand, noschedule, …) and near-misses (trailing blank, …) of every documented taint effect and lifecycle, max_node_age in {\"\", 0, 0s, 12h, -1h, x, 24}}, plus seeded random 3-5-field perturbations and fully random option tuples; " +
 			"each goes through the real ValidateNodeGroup (number of problems recorded); distinct = distinct (options, problem count); every case is non-trivial " +
 			"(the model must reproduce the exact problem count); the decoder and the start-up gate are exercised separately (see harness_extra)",
 		Extra: map[string]interface{}{}}
